@@ -22,7 +22,7 @@ SHAPES = ["plain", "dot-lines", "no-final-newline", "crlf", "empty-body", "multi
 
 def gen_pop(r, n):
     x = r.random()
-    num = r.choice([1, 1, 2, 3, "last", "last", "beyond", 0, "abc", -1, "+1", "+2", "1_0", "0_1", "1e0"])
+    num = r.choice([1, 1, 2, 3, "last", "last", "beyond", 0, "abc", -1, "+1", "+2", "1_0", "0_1", "1e0", "huge", "1"])
     if x < 0.12:
         return {"verb": "STAT"}
     if x < 0.24:
@@ -32,7 +32,7 @@ def gen_pop(r, n):
     if x < 0.62:
         return {"verb": "RETR", "arg": num}
     if x < 0.70:
-        return {"verb": "TOP", "arg": num, "arg2": r.choice((0, 1, 5))}
+        return {"verb": "TOP", "arg": num, "arg2": r.choice((0, 1, 5, 0, 1, 5, "+1", "1_0", "-0", "9" * 5000, "\u00b9"))}
     if x < 0.88:
         return {"verb": "DELE", "arg": num}
     if x < 0.94:
